@@ -1,1 +1,2 @@
 import SedpackProofs.Hash
+import SedpackProofs.Filler
